@@ -7,6 +7,8 @@ Exit 2 (BROKEN: an anchor the rule table names is gone) is reported separately."
 import glob, json, os, shutil, subprocess, sys
 V = os.path.dirname(os.path.dirname(os.path.abspath(__file__)))
 REPO = os.environ.get("VLS_REPO", "/repo")
+# runs on a modified tree must never overwrite the registered evidence
+os.environ.setdefault("VERIF_EVIDENCE_DIR", "/tmp/verif_scratch_evidence")
 
 
 def sh(c):
